@@ -45,6 +45,7 @@ type Contract struct {
 	Props     []string
 	Requires  []*Clause
 	Ensures   []*Clause
+	Defines   []*Clause // naming clauses: assumed by callers, not checked in the body (pure functions named by a spec function)
 	Panics    []*Clause
 	Modifies  []*Clause
 	ModNone   bool
@@ -59,7 +60,8 @@ type Contract struct {
 	Opts      map[string]string
 	File      string
 	Line      int
-	Results   []string // optional result names given as "results a b"
+	Results   []string        // optional result names given as "results a b"
+	Opaque    map[string]bool // predicates that are passed along but never unfolded in this function's VCs
 	Ghosts    []*GhostClause
 	Split     *Clause // "split <int expr> lo hi": obligations may be discharged per value of the expression
 	SplitLo   int
@@ -115,7 +117,7 @@ type ContractSet struct {
 var clauseKeywords = map[string]bool{
 	"property": true, "requires": true, "ensures": true, "panics": true, "modifies": true,
 	"pure": true, "loop": true, "use": true, "assume-dep": true, "inline": true, "nobody": true,
-	"allocates": true, "opt": true, "results": true, "split": true, "after": true, "at": true, "before": true,
+	"allocates": true, "opt": true, "results": true, "split": true, "after": true, "at": true, "before": true, "defines": true, "opaque": true,
 }
 
 func newContractSet() *ContractSet {
@@ -331,6 +333,13 @@ func (cs *ContractSet) parseContractFile(path string, defaultPkg, defaultPkgName
 			cur.Ghosts = append(cur.Ghosts, &GhostClause{Callee: callee, Ord: ord, Kind: f[1], C: c})
 			lastClause = c
 			pendingText = &c.Text
+		case "opaque":
+			if cur.Opaque == nil {
+				cur.Opaque = map[string]bool{}
+			}
+			for _, n := range strings.Fields(rest) {
+				cur.Opaque[n] = true
+			}
 		case "results":
 			cur.Results = strings.Fields(rest)
 		case "split":
@@ -358,13 +367,15 @@ func (cs *ContractSet) parseContractFile(path string, defaultPkg, defaultPkgName
 			cur.Modifies = append(cur.Modifies, c)
 			lastClause = c
 			pendingText = &c.Text
-		case "requires", "ensures", "panics", "use":
+		case "requires", "ensures", "panics", "use", "defines":
 			c := &Clause{Kind: first, Text: rest, File: path, Line: ln + 1}
 			switch first {
 			case "requires":
 				cur.Requires = append(cur.Requires, c)
 			case "ensures":
 				cur.Ensures = append(cur.Ensures, c)
+			case "defines":
+				cur.Defines = append(cur.Defines, c)
 			case "panics":
 				cur.Panics = append(cur.Panics, c)
 			case "use":
